@@ -22,7 +22,7 @@ type subscriptionDict map[string]*subscriptionEntry
 
 func (sd subscriptionDict) Clean(key string) {
 	if subEntry, ok := sd[key]; ok {
-		subEntry.closeTok = simhook.Fork()
+		subEntry.closeTok = simhook.ForkNamed("sub.close:" + key)
 		go subEntry.Close()
 		delete(sd, key)
 	}
@@ -176,7 +176,7 @@ func (g *Gateway) subscriptionHandler(w http.ResponseWriter, r *http.Request) {
 
 			subDict[subMsg.ID] = subEntry
 
-			subEntry.listenTok = simhook.Fork()
+			subEntry.listenTok = simhook.ForkNamed("sub.listen:" + subMsg.ID)
 			go subEntry.Listen(conn)
 
 		// Stop running operations
